@@ -5,6 +5,7 @@ COMMON_ASSUME = [
     "library sources are compiled unmodified by GCC 12 -O2 and their external references retargeted with objcopy",
 ]
 STUB_KERNEL = ["sem_open/close/unlink/wait/post", "shm_open/unlink", "ftruncate/fstat/close (descriptor table)", "mmap/munmap bookkeeping (mappings are real memfd mappings)", "processes and SIGKILL", "clock"]
+STUB_NET = ["socket/bind/listen/accept/connect/send/sendto/recv/recvfrom/poll/shutdown/get|setsockopt/getsockname/getpeername/fcntl (simulated loopback network)", "signal (SIGPIPE disposition)", "clock"]
 STUB_PTHREAD = ["pthread_mutex_*", "pthread_cond_*", "pthread_rwlock_*", "pthread_create/join/exit/self/key_*", "scheduler (seeded, cooperative fibers)", "allocator (p_mem_set_vtable)"]
 
 PROPS = {
@@ -122,5 +123,22 @@ PROPS = {
         "components": {"real": ["pshmbuffer.c", "pshm-posix.c", "psemaphore-posix.c", "pipc.c", "pcryptohash-sha1.c", "perror.c", "pmem.c"], "stub": STUB_KERNEL + STUB_PTHREAD},
         "assumptions": COMMON_ASSUME + ["len == 0 is outside the statement (documented invalid argument): results 0 and -1 accepted, no state change",
                                         "linearizability search capped at 40 calls and 6e5 nodes (beyond: inconclusive, counted)"],
+    },
+    "C09": {
+        "harness": "sock_data",
+        "variants": ["A.c11.posix"],
+        "quick_s": 12, "thorough_s": 300,
+        "level": "exploration",
+        "rule": ("one evaluation = one simulated run: TCP (server + 1-2 clients, IPv4 or IPv6 loopback, 1 B-32 KiB position-coded streams in chunks of 1 B-8 KiB, receive "
+                 "buffers of 1 B-8 KiB, socket buffers 16 B-64 KiB, blocking and non-blocking ends mixed, optional early quit of the receiver) or UDP (2-3 bound sockets "
+                 "exchanging numbered datagrams of 4-2000 B, short receive buffers) with EINTR, EAGAIN-after-poll, short send/recv, delivery delay, late timers and "
+                 "(UDP) loss/duplication/reordering injected into the simulated system calls; distinct = distinct event-log hash; non-trivial = more than one context switch or one fired fault"),
+        "probes": ["data.partial_send_reported", "data.nonblocking_send_waited", "data.nonblocking_receive_waited", "data.eof_seen", "data.receiver_quit_early",
+                   "data.send_error_after_peer_gone", "data.nonblocking_connect", "data.datagram_received", "data.stream_1k_plus", "sock.short_send", "sock.eagain_after_poll",
+                   "sock.send_buffer_full", "sock.epipe", "sock.dgram_truncated", "eintr.send", "eintr.recv", "eintr.poll", "eintr.accept", "eintr.recvfrom", "eintr.sendto",
+                   "eintr.connect_before_start", "eintr.connect_after_start"],
+        "components": {"real": ["psocket.c", "psocketaddress.c", "perror.c", "psysclose-unix.c", "pmem.c", "pmain.c"], "stub": STUB_NET + STUB_PTHREAD},
+        "assumptions": COMMON_ASSUME + ["the socket layer is a model of Linux loopback semantics (connect EINPROGRESS then SO_ERROR, EAGAIN after a positive poll is legal, RST on close with unread data)",
+                                        "after EINTR on connect the model only offers what Linux offers a non-blocking connect (EALREADY, then 0)"],
     },
 }
